@@ -131,6 +131,14 @@ Proof.
   inv_bind Hk0. destruct a2. apply ok_inj in Hk. inversion Hk; subst. lia.
 Qed.
 
+Lemma custom_dec_min : forall f b bs n, custom_dec f b = Ok (bs, n) ->
+  (match f with CFix k => k | CLen8 => 1 end <= n)%nat.
+Proof.
+  intros [k |] b bs n H; unfold custom_dec in H.
+  - inv_bind H. inversion Hk; subst. lia.
+  - destruct b as [| l r]; [discriminate |]. inv_bind H. inversion Hk; subst. lia.
+Qed.
+
 Lemma min_all : (forall s, Pm s) /\ (forall fs, Mf fs) /\ (forall al, Ma al).
 Proof.
   apply schema_fields_alts_ind; unfold Pm.
@@ -158,6 +166,9 @@ Proof.
     apply dec_seq_min in Hb. inversion Hk; subst. simpl. lia.
   - intros d al IH. split; [| exact I]. intros Hw val tot b v n H. simpl in H. inv_bind H. inv_bind Hk.
     destruct a0 as [v' n']. inversion Hk0; subst. cbn [min_size]. eapply IH; eauto.
+  - intros ty f p. split; [| exact I]. intros _ val tot b v n H. simpl in H. inv_bind H. inv_bind Hk.
+    destruct a0 as [bs m]. apply check_code_ok in Hb. apply custom_dec_min in Hb0.
+    destruct (val && negb _); try discriminate. inversion Hk0; subst. cbn [min_size]. lia.
   - intros _ val tot b vs n H. simpl in H. inversion H; subst. simpl. lia.
   - intros k s [IHs IHemb] r IHr [Hws [Hwr Hk]] val tot b vs n H. cbn [decode_fields] in H.
     inv_bind H. destruct a as [v n1]. destruct (length b <? n1)%nat; try discriminate.
@@ -181,6 +192,9 @@ Proof.
     destruct s; try contradiction.
     + destruct s; try contradiction. destruct ty as [t |]; try contradiction. destruct Hao as [_ Hd].
       cbn [min_size code_bytes] in H. rewrite app_length in H || idtac. rewrite le_enc_len in H.
+      destruct d, t; try contradiction; simpl in *; lia.
+    + destruct ty as [t |]; try contradiction. destruct Hao as [_ Hd].
+      cbn [min_size code_bytes] in H. rewrite le_enc_len in H.
       destruct d, t; try contradiction; simpl in *; lia.
     + destruct ty as [t |]; try contradiction. destruct Hao as [_ Hd].
       cbn [min_size code_bytes] in H. rewrite le_enc_len in H.
@@ -452,6 +466,19 @@ Definition Ca (al : alts) : Prop := forall d, wfc_alts d al -> forall tot c b v 
   decode_alt true tot c al b = Ok (v, n) -> times_ok_alt c al v -> encode_alt true c al v = Ok (firstn n b).
 Definition Pc (s : schema) : Prop := Cs s /\ match s with SStruct _ fs => Cf fs | _ => True end.
 
+(* on well-formed input the bytes the custom decoder consumed are what the custom encoder writes for the payload *)
+Lemma custom_dec_enc : forall f b bs n, wfb b -> custom_dec f b = Ok (bs, n) -> custom_enc f bs = Ok (firstn n b).
+Proof.
+  intros [m |] b bs n Hw H; unfold custom_dec in H.
+  - apply bind_ok in H as [x [Ht H]]. apply take_ok in Ht as [Hl ->]. apply ok_inj in H. inversion H; subst.
+    unfold custom_enc. rewrite firstn_length_le by assumption. rewrite Nat.eqb_refl. reflexivity.
+  - destruct b as [| l r]; [discriminate |]. apply bind_ok in H as [x [Ht H]]. apply take_ok in Ht as [Hl ->].
+    apply ok_inj in H. inversion H; subst. unfold custom_enc. rewrite firstn_length_le by assumption.
+    inversion Hw; subst.
+    replace (N.to_nat l <? 256)%nat with true by (symmetry; apply Nat.ltb_lt; lia).
+    rewrite N2Nat.id. reflexivity.
+Qed.
+
 Theorem canonical_all : (forall s, Pc s) /\ (forall fs, Cf fs) /\ (forall al, Ca al).
 Proof.
   apply schema_fields_alts_ind; unfold Pc.
@@ -575,6 +602,13 @@ Proof.
   - (* SIface *) intros d al IH. split; [| exact I]. intros Hwf tot d0 b v n Hw H. cbn [decode] in H.
     apply bind_ok in H as [c [Hp H]]. apply bind_ok in H as [[v' n'] [Hd H]]. apply ok_inj in H. inversion H; subst.
     split; [discriminate | intros Ht]. cbn [times_ok] in Ht. cbn [encode]. eapply IH; eauto.
+  - (* SCustom: for EVERY validator predicate p - the validating decoder ran it on the decoded payload *)
+    intros ty f p. split; [| exact I]. intros _ tot d b v m Hw H. cbn [decode] in H.
+    apply bind_ok in H as [c [Hc H]]. apply bind_ok in H as [[bs n] [Hd H]].
+    cbn [andb] in H. destruct (negb (valid_ok p bs)) eqn:Ev; try discriminate.
+    apply ok_inj in H. inversion H; subst. split; [discriminate | intros _]. cbn [encode andb]. rewrite Ev.
+    rewrite (custom_dec_enc _ _ _ _ (wfb_skipn c b Hw) Hd). cbn [bind].
+    rewrite (check_code_firstn _ _ _ Hw Hc), <- firstn_add. reflexivity.
   - (* FNil *) intros _ tot b vs n Hw H _. cbn [decode_fields] in H. apply ok_inj in H. inversion H; subst. reflexivity.
   - (* FCons *) intros k s [IHs IHemb] r IHr [Hws [Hwr Hk]] tot b vs n Hw H Ht. cbn [decode_fields] in H.
     apply bind_ok in H as [[v n1] [Hstep H]].
@@ -697,3 +731,22 @@ Proof.
   - rewrite map_nth. f_equal. apply nth_error_nth. exact H.
   - rewrite map_length. apply nth_error_Some. congruence.
 Qed.
+
+(* ---------- custom codecs: the validating decoder enforces the registered validator, whatever it is ---------- *)
+Lemma custom_decode_validated : forall ty f (p : bytes -> bool) tot b v n,
+  decode true tot (SCustom ty f (Some p)) b = Ok (v, n) -> exists bs, v = VBytes bs /\ p bs = true.
+Proof.
+  intros ty f p tot b v n H. cbn [decode] in H.
+  apply bind_ok in H as [c [_ H]]. apply bind_ok in H as [[bs m] [_ H]]. cbn [andb valid_ok] in H.
+  destruct (p bs) eqn:E; cbn [negb] in H; try discriminate. apply ok_inj in H. inversion H; subst. eauto.
+Qed.
+
+Example custom_validator_cases :
+  let s := SCustom (Some (TC8 9)) (CFix 2) (Some pred_lt2) in
+  let l := SCustom None CLen8 (Some pred_even_len) in
+  Decode true s [9; 2; 5] = Ok (VBytes [2; 5], 3%nat) /\ Decode true s [9; 5; 2] = Err EValidator /\
+  Decode false s [9; 5; 2] = Ok (VBytes [5; 2], 3%nat) /\ Encode true s (VBytes [5; 2]) = Err EValidator /\
+  Encode false s (VBytes [5; 2]) = Ok [9; 5; 2] /\
+  Decode true l [2; 7; 7; 1] = Ok (VBytes [7; 7], 3%nat) /\ Decode true l [1; 7] = Err EValidator /\
+  Decode true l [3; 7] = Err ENotEnough /\ Encode true l (VBytes [7]) = Err EValidator.
+Proof. repeat split; vm_compute; reflexivity. Qed.
